@@ -204,10 +204,39 @@ func (x *Exec) goRem(a, b string) string {
 	if n, ok := isNumeral(b); ok && n > 0 {
 		return ite(app(">=", a, "0"), app("mod", a, b), app("-", app("mod", app("-", a), b)))
 	}
-	return ite(app(">=", a, "0"), app("mod", a, ite(app(">", b, "0"), b, app("-", b))), app("-", app("mod", app("-", a), ite(app(">", b, "0"), b, app("-", b)))))
+	// Symbolic divisor: SMT `mod` would make the query nonlinear (solvers answer unknown). The remainder is an
+	// uninterpreted function constrained by true facts about Go's % that suffice for ring arithmetic.
+	c := x.ctx
+	if _, ok := c.funs["gorem"]; !ok {
+		c.DeclFun("gorem", []string{"Int", "Int"}, "Int")
+		c.Assume("(forall ((a Int) (b Int)) (! (=> (and (> b 0) (>= a 0)) (and (<= 0 (gorem a b)) (< (gorem a b) b))) :pattern ((gorem a b))))")
+		c.Assume("(forall ((a Int) (b Int)) (! (=> (and (> b 0) (<= a 0)) (and (< (- b) (gorem a b)) (<= (gorem a b) 0))) :pattern ((gorem a b))))")
+		c.Assume("(forall ((a Int) (b Int)) (! (=> (and (> b 0) (<= 0 a) (< a b)) (= (gorem a b) a)) :pattern ((gorem a b))))")
+		c.Assume("(forall ((a Int) (b Int)) (! (=> (and (> b 0) (<= b a) (< a (* 2 b))) (= (gorem a b) (- a b))) :pattern ((gorem a b))))")
+	}
+	return app("gorem", a, b)
 }
 
 // ---------- element heaps and maps ----------
+
+// eidx: absolute position of element i of a slice with offset off. Arithmetic inside quantifier patterns is
+// normalised away by the solvers, so the sum is wrapped in a function symbol with a defining axiom.
+func (x *Exec) eidx(off, i string) string {
+	if off == "0" {
+		return i
+	}
+	if _, ok := isNumeral(off); ok {
+		if _, ok2 := isNumeral(i); ok2 {
+			return app("+", off, i)
+		}
+	}
+	c := x.ctx
+	if _, ok := c.funs["idx"]; !ok {
+		c.DeclFun("idx", []string{"Int", "Int"}, "Int")
+		c.Assume("(forall ((o Int) (i Int)) (! (= (idx o i) (+ o i)) :pattern ((idx o i))))")
+	}
+	return app("idx", off, i)
+}
 
 func (x *Exec) loadElem(st *State, et types.Type, arr, idx string) Val {
 	et = types.Unalias(et)
@@ -303,8 +332,9 @@ func (x *Exec) typeInv(v Val, alloc string) string {
 		}
 		return "true"
 	case KSlice:
+		// A-RES: no slice is longer than 2^40 elements
 		return and(app("<=", "0", v.Arr), app("<=", v.Arr, alloc), app("<=", "0", v.Off), app("<=", "0", v.Len), app("<=", v.Len, v.Cap),
-			implies(eq(v.Arr, "0"), and(eq(v.Cap, "0"), eq(v.Off, "0"))))
+			app("<=", v.Cap, "1099511627776"), implies(eq(v.Arr, "0"), and(eq(v.Cap, "0"), eq(v.Off, "0"))))
 	case KStruct, KTuple:
 		var cs []string
 		for _, f := range v.Fs {
@@ -550,7 +580,8 @@ func (fr *FrameSpec) allowsField(key, ref, alloc0 string) string {
 }
 
 func (fr *FrameSpec) allowsElems(arr, alloc0 string) string {
-	cs := []string{app(">", arr, alloc0)}
+	// the nil slice (array ref 0) has no storage: "writing its elements" is vacuous
+	cs := []string{app(">", arr, alloc0), eq(arr, "0")}
 	for _, a := range fr.elems {
 		cs = append(cs, eq(arr, a))
 	}
@@ -801,11 +832,59 @@ func isFloatType(t types.Type) bool {
 	return ok && b.Info()&types.IsFloat != 0
 }
 
+// Floating point (A-FLOAT): float32/float64 values are modelled as reals; every operation returns the exact real
+// result up to the IEEE round-to-nearest relative error (2^-24, the float32 bound; no overflow, no subnormals),
+// int(f) is exact truncation for |f| < 2^63. Only linear operations (one operand a literal) are constrained.
+const fltEps = "(/ 1.0 16777216.0)"
+
 func (x *Exec) fltLit(s string) string {
-	x.ctx.DeclSort("Flt")
-	name := "fltlit_" + sanitize(s)
-	x.ctx.DeclFun(name, nil, "Flt")
-	return name
+	// s is go/constant's exact string: "2", "1/4", "-3/2"
+	neg := strings.HasPrefix(s, "-")
+	s = strings.TrimPrefix(s, "-")
+	numS, denS := s, "1"
+	if i := strings.Index(s, "/"); i >= 0 {
+		numS, denS = s[:i], s[i+1:]
+	}
+	t := fmt.Sprintf("(/ %s.0 %s.0)", numS, denS)
+	if neg {
+		t = "(- " + t + ")"
+	}
+	// exactly representable when the denominator is a power of two and the numerator is below 2^24
+	var num, den int64
+	exact := false
+	if _, err := fmt.Sscan(numS, &num); err == nil {
+		if _, err := fmt.Sscan(denS, &den); err == nil && den > 0 && den&(den-1) == 0 && num < 1<<24 {
+			exact = true
+		}
+	}
+	if exact {
+		return t
+	}
+	return x.fltRound(t)
+}
+
+func isFltLiteral(t string) bool { return strings.HasPrefix(t, "(/ ") || strings.HasPrefix(t, "(- (/ ") }
+
+// fltRound returns a fresh real within the relative rounding error of the exact term p.
+func (x *Exec) fltRound(p string) string {
+	c := x.ctx
+	x.note("A-FLOAT: floating point modelled as reals with relative rounding error <= 2^-24 per operation")
+	pn := c.Define("fexact", "Real", p)
+	f := c.Fresh("flt", "Real")
+	lo := fmt.Sprintf("(* %s (- 1.0 %s))", pn, fltEps)
+	hi := fmt.Sprintf("(* %s (+ 1.0 %s))", pn, fltEps)
+	c.Assume(ite(app(">=", pn, "0.0"), and(app("<=", lo, f), app("<=", f, hi)), and(app("<=", hi, f), app("<=", f, lo))))
+	return f
+}
+
+func (x *Exec) fltToInt(r string) string {
+	c := x.ctx
+	x.note("A-FLOAT: floating point modelled as reals with relative rounding error <= 2^-24 per operation")
+	i := c.Fresh("ftoi", "Int")
+	ir := app("to_real", i)
+	inRange := and(app("<", "(- 9223372036854775808.0)", r), app("<", r, "9223372036854775808.0"))
+	c.Assume(implies(inRange, ite(app(">=", r, "0.0"), and(app("<=", ir, r), app("<", r, app("+", ir, "1.0"))), and(app("<", app("-", ir, "1.0"), r), app("<=", r, ir)))))
+	return i
 }
 
 func (x *Exec) funcRef(fn *ssa.Function) string {
@@ -850,7 +929,7 @@ func (a *Activation) value(ins ssa.Value, st *State, rc *string) Val {
 		case KSlice:
 			et := base.T.Underlying().(*types.Slice).Elem()
 			x.oblige(a.oname("safe-index"), "", *rc, and(app("<=", "0", idx), app("<", idx, base.Len)), ins.Pos(), nil, "index out of range")
-			return Val{K: KLoc, T: types.NewPointer(et), Loc: &Loc{K: LElem, Arr: base.Arr, Idx: c.Define(name, "Int", app("+", base.Off, idx)), T: et}}
+			return Val{K: KLoc, T: types.NewPointer(et), Loc: &Loc{K: LElem, Arr: base.Arr, Idx: c.Define(name, "Int", x.eidx(base.Off, idx)), T: et}}
 		case KArrPtr:
 			et := base.T.Underlying().(*types.Pointer).Elem().Underlying().(*types.Array).Elem()
 			x.oblige(a.oname("safe-index"), "", *rc, and(app("<=", "0", idx), app("<", idx, fmt.Sprint(base.N))), ins.Pos(), nil, "index out of range")
@@ -1126,8 +1205,7 @@ func (a *Activation) unop(ins *ssa.UnOp, st *State, rc *string) Val {
 		return scalar(v.T, c.Define(ins.Name(), "Bool", not(v.S)))
 	case token.SUB:
 		if isFloatType(v.T) {
-			c.DeclFun("flt_neg", []string{"Flt"}, "Flt")
-			return scalar(v.T, app("flt_neg", v.S))
+			return scalar(v.T, app("-", v.S))
 		}
 		return scalar(v.T, c.Define(ins.Name(), "Int", app("-", v.S)))
 	case token.XOR:
@@ -1165,14 +1243,25 @@ func (a *Activation) binop(ins *ssa.BinOp, st *State, rc *string) Val {
 		return scalar(t, c.Define(name, "Bool", e))
 	}
 	if isFloatType(l.T) {
-		op := map[token.Token]string{token.ADD: "flt_add", token.SUB: "flt_sub", token.MUL: "flt_mul", token.QUO: "flt_div"}[ins.Op]
-		if op != "" {
-			c.DeclFun(op, []string{"Flt", "Flt"}, "Flt")
-			return scalar(t, c.Define(name, "Flt", app(op, l.S, r.S)))
+		switch ins.Op {
+		case token.ADD, token.SUB:
+			op := map[token.Token]string{token.ADD: "+", token.SUB: "-"}[ins.Op]
+			return scalar(t, x.fltRound(app(op, l.S, r.S)))
+		case token.MUL:
+			if isFltLiteral(l.S) || isFltLiteral(r.S) {
+				return scalar(t, x.fltRound(app("*", l.S, r.S)))
+			}
+			x.note("nonlinear float multiplication is unconstrained in " + a.fn.Name())
+			return scalar(t, c.Fresh("fmul", "Real"))
+		case token.QUO:
+			if isFltLiteral(r.S) {
+				return scalar(t, x.fltRound(app("/", l.S, r.S)))
+			}
+			x.note("nonlinear float division is unconstrained in " + a.fn.Name())
+			return scalar(t, c.Fresh("fdiv", "Real"))
 		}
-		cmp := map[token.Token]string{token.LSS: "flt_lt", token.LEQ: "flt_le", token.GTR: "flt_gt", token.GEQ: "flt_ge"}[ins.Op]
+		cmp := map[token.Token]string{token.LSS: "<", token.LEQ: "<=", token.GTR: ">", token.GEQ: ">="}[ins.Op]
 		if cmp != "" {
-			c.DeclFun(cmp, []string{"Flt", "Flt"}, "Bool")
 			return scalar(t, c.Define(name, "Bool", app(cmp, l.S, r.S)))
 		}
 		unsup("float operator %s", ins.Op)
@@ -1290,16 +1379,11 @@ func (a *Activation) convert(ins *ssa.Convert) Val {
 		a.overflow(v.S, to, a.rcOf[ins.Block()], ins.Pos())
 		return scalar(to, v.S)
 	case isIntType(from) && isFloatType(to):
-		c.DeclSort("Flt")
-		c.DeclFun("int_to_flt", []string{"Int"}, "Flt")
-		return scalar(to, app("int_to_flt", v.S))
+		return scalar(to, x.fltRound(app("to_real", v.S)))
 	case isFloatType(from) && isIntType(to):
-		c.DeclSort("Flt")
-		c.DeclFun("flt_to_int", []string{"Flt"}, "Int")
-		x.note("float→int conversion is uninterpreted (arraylist growth heuristic): " + a.fn.Name())
-		return scalar(to, c.Define(ins.Name(), "Int", app("flt_to_int", v.S)))
+		return scalar(to, x.fltToInt(v.S))
 	case isFloatType(from) && isFloatType(to):
-		return scalar(to, v.S)
+		return scalar(to, x.fltRound(v.S))
 	case isStringType(from) && isStringType(to):
 		return scalar(to, v.S)
 	}
